@@ -56,12 +56,14 @@ def junk_frame(rng):
 
 
 def gen_config(rng, tier):
-  s = {'USE_WHITELIST': True, 'USE_FLOW_CONTROL': True,
+  s = {'USE_WHITELIST': True, 'USE_FLOW_CONTROL': rng.random() < 0.8,
        'MIN_TIMESTAMP_RESOLUTION': rng.choice([0, 1, 10, 60])}
   files = {'whitelist.conf': gen_list(rng), 'blacklist.conf': gen_list(rng)}
   ig.listener_knobs(rng, s)
   if rng.random() < 0.2:
     s['METRIC_CLIENT_IDLE_TIMEOUT'] = rng.choice([5, 30])
+  if rng.random() < 0.2:
+    s['MAX_RECEIVER_CONNECTIONS'] = rng.choice([1, 2, 3])
   # the daemon is not started on a whole second: the 10 s reload ticks fall inside seconds
   t0 = 1000000.0 + rng.choice([0.0, 0.0, 0.25, 0.5, 0.5, 0.75])
   return {'daemon': 'cache', 'settings': s, 'files': files, 't0': t0}
@@ -155,6 +157,9 @@ def gen_plan(rng, cfg, tier):
     extra.append(['file', rng.choice(['whitelist.conf', 'blacklist.conf']), gen_list(rng)] +
                  (['exact'] if exact else []))
     extra.append(['advance', rng.choice([1.0, 5.0, 9.999, 10.0, 10.0, 25.0])])
+  for _ in range(rng.choice([0, 0, 0, 1, 2])):
+    # what the cache signals when it is (nearly) full / has space again
+    extra.insert(rng.randint(0, len(extra)), rng.choice([['cachefull'], ['cachefull'], ['cachespace']]))
   if rng.random() < 0.15:
     extra.insert(rng.randint(0, len(extra)), ['walljump', rng.choice([3600.0, 45.0, -45.0, -3600.0])])
   if exact and rng.random() < 0.5:
@@ -166,6 +171,11 @@ def gen_plan(rng, cfg, tier):
     pos = rng.randint(0, len(extra))
     extra[pos:pos] = burst
   plan = {'prop': PROP, 'clients': clients, 'steps': ig.gen_steps(rng, clients, extra)}
+  plan['late_connect'] = rng.random() < 0.4
+  if rng.random() < 0.2:
+    # the file cannot be read (EACCES) when a reload tick looks at it, although unchanged
+    plan['unreadable'] = [[rng.randint(1, 4), rng.choice(['whitelist', 'blacklist'])]
+                          for _ in range(rng.randint(1, 2))]
   if rng.random() < 0.25:
     # an editor saves the file once more while the daemon is reading it at a reload tick
     plan['save_during_read'] = [[rng.randint(1, 4), rng.choice(['whitelist', 'blacklist']), gen_list(rng) or '^a\\.\n']
